@@ -206,6 +206,8 @@ func verifLemmaTraversalComplete(E iface.IPFSLogOrderedEntries, H iface.IPFSLogO
 //@   ensures [skip-references-are-not-predecessors] err == nil ==> forall i int, j int :: 0 <= i && i < len(result0.Refs) && 0 <= j && j < len(result0.Next) ==> result0.Refs[i] != result0.Next[j]
 //@   ensures [skip-references-are-entries-of-the-log] err == nil ==> forall i int, k string :: 0 <= i && i < len(result0.Refs) && k == str(result0.Refs[i]) ==> old(has(om(l.Entries).values, k)) || old(has(om(l.heads).values, k))
 //@ @wf requires wfLog(l)
+//@ @wf assert "l.AccessController.CanAppend(e, l.Identity.Provider" [index-records-point-to-entries-before-the-entry-is-added] forall n string :: has(idx(l), n) ==> validEntry(idx(l)[n]) && has(ent(l), ehash(idx(l)[n])) && ent(l)[ehash(idx(l)[n])] == idx(l)[n]
+//@ @wf assert "l.AccessController.CanAppend(e, l.Identity.Provider" [index-records-name-their-key-before-the-entry-is-added] forall n string :: has(idx(l), n) ==> names(idx(l)[n], n)
 //@ @wf assert "l.Entries.Set(e.GetHash().String(), e)" [new-entry-links-are-old-heads] forall j int, k string :: 0 <= j && j < len(e.Next) && k == str(e.Next[j]) ==> old(has(hds(l), k))
 //@ @wf assert "l.Entries.Set(e.GetHash().String(), e)" [old-heads-were-not-indexed] forall j int, k string :: 0 <= j && j < len(e.Next) && k == str(e.Next[j]) ==> !old(has(idx(l), k))
 //@ @wf assert "l.Entries.Set(e.GetHash().String(), e)" [an-old-entry-with-the-new-hash-has-the-new-links] forall k string :: old(has(ent(l), k)) && k == ehash(e) ==> sameCids(old(ent(l)[k]).Next, e.Next)
